@@ -256,7 +256,7 @@ SubExitMoves(s) ==
 (*           (must be worked off first; concurrent deliveries are unordered)  *)
 Listeners(s, c) ==
   IF Node(s.p, c).kind = "boundary"
-  THEN {t \in Toks(s) : t.at = Node(s.p, c).attached /\ t.st = "req"}
+  THEN {t \in Toks(s) : t.at = Node(s.p, c).attached /\ t.st \in {"req", "sub"}}
   ELSE {t \in Toks(s) : t.at = c /\ t.st = "listen"}
 Arriving(s, c) == {t \in Toks(s) : t.at = c /\ t.st = "arriving"}
 
@@ -267,7 +267,9 @@ Deliver(s, k, ref) ==
                \* a boundary event is offered the event only while its host waits
                IF Node(s.p, c).kind = "boundary" /\ Listeners(s, c) = {} THEN @[c]
                ELSE Append(@[c], [k |-> k, ref |-> ref, id |-> id, done |-> FALSE,
-                                  racy |-> Arriving(s, c) # {},
+                                  \* (a boundary event that has not announced it listens yet
+                                  \* is still being armed: the delivery races with that)
+                                  racy |-> Arriving(s, c) # {} \/ (Node(s.p, c).kind = "boundary" /\ s.lstn[c] = 0),
                                   after |-> {@[c][j].id : j \in {j \in DOMAIN @[c] : @[c][j].done}}])]]
 
 \* the oldest unfinished delivery of that event has returned
@@ -315,11 +317,14 @@ Caught(s, c) ==
   THEN LET hosts == Listeners(s, c)
            h == CHOOSE t \in hosts : TRUE
            exc == Tok(c, "in", 0, "", h.tag, h.inst)
+           \* tokens of the interrupted activity: the host token itself and, for
+           \* a sub-process host, every token of that activation of the scope
+           gone == {h} \cup (IF h.st = "sub" THEN {t \in Toks(s) : h.occ \in SeqRange(t.inst)} ELSE {})
        IN  IF n.intr
            THEN \* interrupting: the exception flow replaces the normal flow;
-                \* an answer to the interrupted request has no effect any more
-                [s EXCEPT !.tok = AddToks(DelTok(@, h), {exc}),
-                          !.intr = @ \cup {<<h.at, h.occ>>}]
+                \* an answer to an interrupted request has no effect any more
+                [s EXCEPT !.tok = AddToks([t \in DOMAIN @ \ gone |-> @[t]], {exc}),
+                          !.intr = @ \cup {<<t.at, t.occ>> : t \in {u \in gone : u.st = "req"}}]
            ELSE [s EXCEPT !.tok = AddToks(@, {exc})]
   ELSE LET L == Listeners(s, c)
            rel(t) == IF t.race = 0 THEN [t EXCEPT !.st = "in"] ELSE [t EXCEPT !.st = "cand"]
@@ -359,6 +364,12 @@ ListenMoves(s) ==
        [s EXCEPT !.tok = AddToks(DelTok(@, t), {[t EXCEPT !.st = "listen"]}),
                  !.lstn[t.at] = IF Listeners(s, t.at) = {} THEN @ + 1 ELSE @])
     : t \in {u \in Toks(s) : u.st = "arriving"} }
+
+\* the boundary events of an activity are armed (and announce it, once) when
+\* the activity is first activated
+ArmMoves(s) ==
+  { Mv(Lab("listening", b, 0), [s EXCEPT !.lstn[b] = 1])
+    : b \in {b \in NodesOfKind(s.p, "boundary") : s.lstn[b] = 0 /\ Listeners(s, b) # {}} }
 
 (* Event-based gateway: among the alternatives whose event was caught exactly *)
 (* one is determined the winner and continues; every other alternative of the *)
@@ -428,6 +439,7 @@ CeaseMoves(s) ==
 Moves(s)    == LeaveMoves(s) \cup ArriveMoves(s) \cup AndMoves(s) \cup OrMoves(s)
                  \cup SubExitMoves(s) \cup CeaseMoves(s) \cup TaskErrMoves(s) \cup RereqMoves(s)
                  \cup EventObsMoves(s) \cup EventDropMust(s) \cup ListenMoves(s) \cup DetermineMoves(s)
+                 \cup ArmMoves(s)
 TauMoves(s) == {m \in Moves(s) : m.lab.ev = "tau"}
 ObsMoves(s) == {m \in Moves(s) : m.lab.ev # "tau"}
 
